@@ -144,4 +144,13 @@ PROPS = {
         'assumptions': [],
         'targets': ['Corr/Dispatch.vo', 'Proto/Run.vo'],
     },
+    'C20': {
+        'race': True,
+        'diagnose': 'From Coq Require Import List String.\nFrom OTR Require Import Gen.Globals Proto.Shared.\nDefinition U := Eval vm_compute in map (fun w => (gw_fn w, gw_var w, gw_kind w, gw_pos w)) unsafe_writes.\nPrint U.\nDefinition A := Eval vm_compute in filter (fun v => negb (mem v exact_cap_vars)) append_prefix_vars.\nPrint A.\n',
+        'level_text': 'Theorems: (1) over the table the translator regenerates from the source on every run (every assignment, store, ++/--, copy, append, address-of, pointer-method call and escape that can reach memory of a package-level variable, with intra-package summaries to a fixed point) nothing outside package initialisation writes shared memory except appends to / hand-outs of exact-capacity slices; every append-prefix variable is in the capacity-checked list; (2) in a model of Go slices, append on a slice with len = cap never writes an existing array; (3) for the conversation machine, every interleaving of calls on any number of conversations gives each conversation the state and results it has alone (induction over the schedule). Every run: the capacities in the running program (hook), N scripted pairs alone vs. all at once on N goroutines with byte-identical transcripts, concurrently run histories replayed on the Coq machine, tight loops through every append-prefix site, package-level snapshot, all under the Go race detector.',
+        'level_note': 'partial: data races inside one call and the Go memory model are outside the Coq model (the race detector is supporting evidence); the table is produced by my translator (rules in tools/gen/globals.go) and does not see reflection/unsafe/assembly.',
+        'trusted': ['tools/gen/globals.go: the alias/effect analysis that produces Gen/Globals.v', 'the Go race detector (go build -race) as a measuring instrument', 'hook VerifGlobalSlices lists the package-level byte slices by name'],
+        'assumptions': ['a returned slice that shares a package-level array (only when nothing was appended) is not written in place by the application'],
+        'targets': ['Corr/Dispatch.vo', 'Proto/Run.vo'],
+    },
 }
